@@ -93,7 +93,9 @@ def check_tables() -> list:
         if {cid: n for cid, (n, _, _) in h.COMMANDS_BY_ID.items()} != {cid: n for n, (cid, _, _) in cls.COMMANDS.items()}:
             r.bad("C07:by-id-not-inverse", f"v{v}")
         for cid, (n, tx, rx) in h.COMMANDS_BY_ID.items():
-            if cls.COMMANDS[n][1] is not tx or cls.COMMANDS[n][2] is not rx:
+            if n not in cls.COMMANDS:
+                r.bad("C07:by-id-names-foreign-command", f"v{v}: frame ID 0x{cid:04X} is looked up as {n!r}, which is not a command of this version")
+            elif cls.COMMANDS[n][1] is not tx or cls.COMMANDS[n][2] is not rx:
                 r.bad("C07:by-id-schema-mismatch", f"v{v} {n}")
         res.append(({"t": "table", "v": v}, r))
         # pinned frame IDs and wire shapes of the commands the rest of bellows depends on
